@@ -159,21 +159,36 @@ def spec_decode(c, r):
     return d
 
 
+def _entry_failure(ph, slop, g, spec_entry):
+    """which clause the frequency g of one document violates: None, 'shape', 'exact', 'terms' or 'window'"""
+    occ, has_all, window = spec_entry
+    if not isinstance(g, int) or g < 0:
+        return "shape"
+    if occ > 0 and g == 0:
+        return "exact"                      # an exact match must stay a match
+    if g > 0 and not has_all:
+        return "terms"                      # a match contains every term
+    if len(set(ph)) == len(ph) and len(ph) + slop <= 18 and window and g == 0:
+        return "window"                     # in-order window within length + slop tokens
+    return None
+
+
 def _clauses_ok(case, got, spec, qi=0):
     ph, slop = case["queries"][qi][1], case["queries"][qi][2]
     if got[0] != "ok" or spec[0] != "ok" or len(got[1]) != len(spec[1]):
         return False
-    distinct = len(set(ph)) == len(ph)
-    for g, (occ, has_all, window) in zip(got[1], spec[1]):
-        if not isinstance(g, int) or g < 0:
-            return False
-        if occ > 0 and g == 0:
-            return False                    # an exact match must stay a match
-        if g > 0 and not has_all:
-            return False                    # a match contains every term
-        if distinct and len(ph) + slop <= 18 and window and g == 0:
-            return False                    # in-order window within length + slop tokens
-    return True
+    return all(_entry_failure(ph, slop, g, e) is None for g, e in zip(got[1], spec[1]))
+
+
+def _alias64(doc, ph):
+    """two occurrences of phrase terms at positions congruent modulo 64 (the complement of the theorems' no_alias64)"""
+    seen = set()
+    for i, t in enumerate(doc or []):
+        if t in ph:
+            if i % 64 in seen:
+                return True
+            seen.add(i % 64)
+    return False
 
 
 def equal(case, a, b):
@@ -188,9 +203,25 @@ def _clf_stale_position_bit(case, params, ir=None, m=None, sp=None):
     """KNOWN FINDING D27 (stale position bit in _span_freqs): the implementation agrees with the faithful model (checked by
     the caller), violates a clause, and the variant of the model that clears the position bit of a width-rejected
     continuation satisfies every clause on the same input.  Any other cause is still reported as a violation."""
-    if not (isinstance(m, dict) and m.get("variant") and isinstance(sp, dict) and sp.get("q")):
+    if not (isinstance(m, dict) and m.get("variant") and isinstance(sp, dict) and sp.get("q") and isinstance(ir, dict)):
         return False
-    return len(m["variant"]) == len(sp["q"]) and all(_clauses_ok(case, x, y, i) for i, (x, y) in enumerate(zip(m["variant"], sp["q"])))
+    if not (len(m["variant"]) == len(sp["q"]) == len(ir.get("q", [])) == len(case["queries"])):
+        return False
+    hits = 0
+    for i, (got, var, spec) in enumerate(zip(ir["q"], m["variant"], sp["q"])):
+        ph, slop = case["queries"][i][1], case["queries"][i][2]
+        if got[0] != "ok" or var[0] != "ok" or spec[0] != "ok" or not (len(got[1]) == len(var[1]) == len(spec[1]) == len(case["docs"])):
+            return False
+        for doc, g, v, e in zip(case["docs"], got[1], var[1], spec[1]):
+            f = _entry_failure(ph, slop, g, e)
+            if f is None:
+                continue
+            # per (query, document): only a LOST match (clauses 1 / 3), only in a document where two phrase-term positions
+            # coincide modulo 64 (outside that the clauses are theorems), and only if clearing the stale bit restores it
+            if f not in ("exact", "window") or not _alias64(doc, set(ph)) or _entry_failure(ph, slop, v, e) is not None:
+                return False
+            hits += 1
+    return hits > 0
 
 
 CLASSIFIERS = {"stale_position_bit": _clf_stale_position_bit}
